@@ -1,1 +1,94 @@
-(* C05 stub: to be written *)
+(* C05: model of epgpy/diffusion.py  D._apply.
+
+   (a) structure (generic scalar): with per-state attenuation factors DT (transverse) and DL (longitudinal),
+         states[..., 0] = DT * states[..., 0]
+         states[..., 2] = DL * states[..., 2]
+         states[..., 1] = states[..., ::-1, 0].conj()          (F- rebuilt from the UPDATED F+, mirrored)
+       [d_apply_idx] takes the factors per array index (this is what is executed against the implementation's own
+       exp() values), [d_apply] takes them as functions of the signed phase-state number k = index - nstate (this is
+       what the pathway theorem is about).
+   (b) b-matrices (rationals, executed): bL from sm.k, bT from the linear ramp (sm.k - shift -> sm.k) with
+       shift = self.k * sm.kvalue, or bT = bL when self.k is None; sm.k = coords * kvalue; entry formulas are the
+       GENERATED rational twins bmatQ / bmat_constQ of Gen/Diffusion.v. *)
+From Coq Require Import List ZArith QArith Qabs Qcanon Lia Bool.
+From EPG Require Import Scalar QI State Ops.
+From EPG.Gen Require Import Diffusion.
+Import ListNotations.
+
+Section DModel.
+Variable S : ScalOps.
+Notation triple := (triple S).
+Notation sm := (sm S).
+
+Definition d_apply_list (aT aL : nat -> S) (l : list triple) : list triple :=
+  let N := length l in
+  tab N (fun i =>
+    mk3 (aT i * fp (nth i l t0))%K
+        (kconj (aT (N - 1 - i)%nat * fp (nth (N - 1 - i) l t0))%K)
+        (aL i * fz (nth i l t0))%K).
+
+Definition d_apply_idx (aT aL : nat -> S) (s : sm) : sm :=
+  mkSM (d_apply_list aT aL (st s)) (equ s).
+
+(* 1-D: state index i holds phase state k = i - nstate *)
+Definition d_apply (aT aL : Z -> S) (s : sm) : sm :=
+  let n := Z.of_nat ((length (st s) - 1) / 2) in
+  d_apply_idx (fun i => aT (Z.of_nat i - n)%Z) (fun i => aL (Z.of_nat i - n)%Z) s.
+
+(* one [RF matrix, integer shift, diffusion] block of a sequence *)
+Record block : Type := mkB { b_rf : mat3 S; b_d : Z; b_aT : Z -> S; b_aL : Z -> S }.
+Definition apply_block (B : block) (s : sm) : sm :=
+  d_apply (b_aT B) (b_aL B) (apply (OShift (b_d B) None) (apply (OMatrix (b_rf B) None) s)).
+Definition run_blocks (bs : list block) (s : sm) : sm := fold_left (fun s B => apply_block B s) bs s.
+
+End DModel.
+
+Arguments d_apply_list {S}. Arguments d_apply_idx {S}. Arguments d_apply {S}.
+Arguments mkB {S}. Arguments b_rf {S}. Arguments b_d {S}. Arguments b_aT {S}. Arguments b_aL {S}.
+Arguments apply_block {S}. Arguments run_blocks {S}.
+
+(* ------------------------------------------------------------------ executed side (rationals) *)
+Local Open Scope Q_scope.
+
+(* sm.k = coords * kvalue (scalar kvalue) *)
+Definition ks_of (kvalue : Q) (coords : list (list Q)) : list (list Q) :=
+  map (map (fun c => c * kvalue)) coords.
+(* 1-D state matrix without coords: _setup_coords(nstate, 1) = [[-n], ..., [n]] *)
+Definition coords1 (len : nat) : list (list Q) :=
+  tab len (fun i => [inject_Z (Z.of_nat i - Z.of_nat ((len - 1) / 2))]).
+
+Definition bmat_of (tau : Q) (k1 k2 : list Q) : list (list Q) :=
+  map (fun a => map (fun b => bmatQ tau (fst a) (fst b) (snd a) (snd b)) (combine k1 k2)) (combine k1 k2).
+Definition bmatc_of (tau : Q) (k1 : list Q) : list (list Q) :=
+  map (fun a => map (fun b => bmat_constQ tau a b) k1) k1.
+Definition vsub (a b : list Q) : list Q := map (fun p => fst p - snd p) (combine a b).
+
+(* D._apply, b-matrix part: per state (bL, bT) *)
+Definition d_bmats (tau : Q) (shift : option (list Q)) (ks : list (list Q)) : list (list (list Q) * list (list Q)) :=
+  map (fun k => (bmatc_of tau k,
+                 match shift with None => bmatc_of tau k | Some sh => bmat_of tau (vsub k sh) k end)) ks.
+
+(* comparison with the implementation's binary64 b-matrices: |x - y| <= tol * (1 + |y|) *)
+Definition q_close (tol x y : Q) : bool := Qle_bool (Qabs (x - y)) (tol * (1 + Qabs y)).
+Fixpoint all2q {A B} (f : A -> B -> bool) (x : list A) (y : list B) : bool :=
+  match x, y with
+  | [], [] => true
+  | u :: x', v :: y' => f u v && all2q f x' y'
+  | _, _ => false
+  end.
+Definition mat_close (tol : Q) (a b : list (list Q)) : bool := all2q (all2q (q_close tol)) a b.
+Definition bmats_ok (tol tau : Q) (shift : option (list Q)) (ks : list (list Q))
+    (obsL obsT : list (list (list Q))) : bool :=
+  let m := d_bmats tau shift ks in
+  all2q (mat_close tol) (map fst m) obsL && all2q (mat_close tol) (map snd m) obsT.
+
+(* states after D._apply, with the implementation's own factors, compared with relative tolerance
+   |x - y|^2 <= tol^2 (1 + |y|^2) per component *)
+Definition qi_abs2 (x : QI) : Qc := (fst x * fst x + snd x * snd x)%Qc.
+Definition qi_close (tol : Qc) (x y : QI) : bool :=
+  Qle_bool (this (qi_abs2 (qi_sub x y))) (this (tol * tol * (Q2Qc 1 + qi_abs2 y))%Qc).
+Definition t_close (tol : Qc) (x y : triple QIops) : bool :=
+  qi_close tol (fp x) (fp y) && qi_close tol (fm x) (fm y) && qi_close tol (fz x) (fz y).
+Definition d_states_ok (tol : Qc) (DT DL : list QI) (pre post : list (triple QIops)) : bool :=
+  Nat.eqb (length DT) (length pre) && Nat.eqb (length DL) (length pre) &&
+  all2q (t_close tol) (@d_apply_list QIops (fun i => nth i DT qi0) (fun i => nth i DL qi0) pre) post.
